@@ -81,9 +81,17 @@ func (lp *logProcessor[INPUT, OUTPUT]) runLog(
 				if err != nil {
 					return nil, nil, err
 				}
-				return nil, nil, newErrSchemaNotFound(parameters.SchemaVersion, latestVersion)
+				notFound := newErrSchemaNotFound(parameters.SchemaVersion, latestVersion)
+				if lp.schemaEnforcementMode == SchemaEnforcementStrict {
+					return nil, nil, notFound
+				}
+				// audit mode reports the violation and goes on without a schema
+				trace.SpanFromContext(ctx).SetAttributes(attribute.String("schema_not_found", notFound.Error()))
+				logging.FromContext(ctx).Errorf("schema validation failed: %s", notFound)
+				schema = nil
+			} else {
+				return nil, nil, err
 			}
-			return nil, nil, err
 		}
 	} else {
 		var payload OUTPUT
